@@ -888,13 +888,20 @@ func (s *mapStream[T, U]) Close() {
 // Merge merges the in streams, returning a stream that yields all elements from all of them as they
 // arrive.
 func Merge[T any](in ...Stream[T]) Stream[T] {
+	if len(in) == 0 {
+		return Empty[T]()
+	}
 	sender, receiver := Pipe[T](0)
 	nDone := uint32(0)
 	closeOnce := uint32(0)
 	ctx, cancel := context.WithCancel(context.Background())
+	var wg sync.WaitGroup
+	wg.Add(len(in))
 	for i := 0; i < len(in); i++ {
 		i := i
 		go func() {
+			defer wg.Done()
+			defer in[i].Close()
 			defer func() {
 				if int(atomic.AddUint32(&nDone, 1)) == len(in) &&
 					atomic.LoadUint32(&closeOnce) == 0 {
@@ -920,7 +927,13 @@ func Merge[T any](in ...Stream[T]) Stream[T] {
 			}
 		}()
 	}
-	return receiver
+	return &mergeStream[T]{
+		inner: receiver,
+		cancel: func() {
+			cancel()
+			wg.Wait()
+		},
+	}
 }
 
 type mergeStream[T any] struct {
